@@ -27,11 +27,13 @@ class LoopSummary(Event):
     """k iterations of a loop verified by invariant; `alts` are the traces (lists of events) that
     one normally-completing iteration can contribute."""
 
-    def __init__(self, loop_id, alts, line, held=(), items=None, iterable=None):
+    def __init__(self, loop_id, alts, line, held=(), items=None, iterable=None, alt_states=None, ctx=None):
         super().__init__('loop', loop_id, line=line, held=held)
         self.alts = alts
         self.items = items if items is not None else []
         self.iterable = iterable
+        self.alt_states = alt_states if alt_states is not None else []   # state at the end of each alternative iteration
+        self.ctx = ctx
 
 
 class State:
